@@ -1080,9 +1080,9 @@ func (o *Own) returnDesc(f *Func, ret *ast.ReturnStmt) string {
 				if is, ok := stack[i].(*ast.IfStmt); ok {
 					// then-branch or else-branch?
 					inElse := is.Else != nil && rs.Pos() >= is.Else.Pos()
-					c := stripVarLines(p.Canon(is.Cond))
+					c := p.RoleCanon(f, is.Cond)
 					if inElse {
-						c = "!(" + c + ")"
+						c = negateText(c)
 					}
 					d = "return under [" + c + "]"
 					break
@@ -1090,7 +1090,7 @@ func (o *Own) returnDesc(f *Func, ret *ast.ReturnStmt) string {
 				if cc, ok := stack[i].(*ast.CaseClause); ok {
 					var cs []string
 					for _, e := range cc.List {
-						cs = append(cs, stripVarLines(p.Canon(e)))
+						cs = append(cs, p.RoleCanon(f, e))
 					}
 					if len(cs) == 0 {
 						cs = []string{"default"}
